@@ -20,7 +20,7 @@ import threading
 import common
 from common import enc
 
-NAMES = ['a', 'b', 'A', '.h', 'a.b', 'ab', 'c', '.hd', 'skipme', 'a\n', 'B.txt', 'x\\']
+NAMES = ['a', 'b', 'A', '.h', 'a.b', 'ab', 'c', '.hd', 'skipme', 'a\n', 'B.txt', 'x\\', '(a)', '(a)b']
 MAX_NODES = 160
 
 
@@ -192,9 +192,9 @@ def count_nodes(t: list) -> int:
 
 FILE_BODIES = ['*', '*', '*.b', 'a*', '?', '[ab]*', '.*', '**', '**/a', 'a/*', '*/b', 'a/**', '@(a|b)', '{a,b}*',
                'A*', '*.txt', '.h*', '+(a)', '!(a)', '*\n', 'a', 'b', '*/*', '**/*.b', 'a/a', '[!a]*', 'a|b', '*b*',
-               '**/.h', 'skipme/*', '?(a)b', '*(a|b)', 'x\\\\']
+               '**/.h', 'skipme/*', '?(a)b', '*(a|b)', 'x\\\\', '(a)*', '(a)']
 DIR_BODIES = ['skipme', 'a', 'b', '.*', '*', 'a/a', '**/a', 'a/*', '*/b', '@(a|b)', '{a,ab}', 'A', '[ab]', '**',
-              'a/**', '.hd', 'skip*', '*/skipme', '?', 'a.b', '!(a)']
+              'a/**', '.hd', 'skip*', '*/skipme', '?', 'a.b', '!(a)', '(a)', '(a)*']
 
 
 class Pat:
@@ -250,18 +250,16 @@ class Decider:
         self.gl = gl
         self.gl_mb = gl | (G.MATCHBASE if flags & WM.MATCHBASE else 0)
 
-    def _path(self, path: str, pat: Pat) -> bool:
-        G = self.G
-        if not pat.anchored:
-            return bool(G.globmatch(path, pat.text(self.minus), flags=self.gl_mb))
-        # a leading '/' anchors the alternative to the root: the slash is stripped and MATCHBASE does
-        # not apply to it; the list is "some inclusion and no exclusion" (only exclusions = everything except)
-        plain = self.gl & ~(G.NEGATE | G.NEGATEALL | G.SPLIT)
-        pos = neg = False
-        any_pos = False
+    def _list(self, pat: Pat, one) -> bool:
+        """the list semantics written out: some inclusion and no exclusion (only exclusions = everything except), every
+        alternative decided on its own by `one(body, anchored)` WITHOUT the negation flags — so that the recognition of the
+        `!` / `-` prefix itself is part of what is checked (added after seeded change C14f: `-(` under MINUSNEGATE|EXTMATCH)"""
+        ext = bool(self.flags & self.WM.EXTMATCH)
+        pos = neg = any_pos = False
         for n_, anc, body in pat.alts:
-            fl = plain | (G.MATCHBASE if (self.flags & self.WM.MATCHBASE and not anc) else 0)
-            m = bool(G.globmatch(path, body, flags=fl))
+            if n_ and not anc and not self.minus and ext and body.startswith('('):
+                n_, body = False, '!' + body        # `!(` under EXTMATCH opens an extended group: documented, not a negation
+            m = one(body, anc)
             if n_:
                 neg = neg or m
             else:
@@ -271,17 +269,36 @@ class Decider:
             pos = True
         return pos and not neg
 
+    def _decomposable(self, pat: Pat) -> bool:
+        # bodies that SPLIT / BRACE would cut further (the prefix then belongs to the first piece only) stay with the API
+        return all(b and b[0] not in '!-' and not any(c in b for c in '|{}') for _n, _a, b in pat.alts)
+
+    def _path(self, path: str, pat: Pat) -> bool:
+        G = self.G
+        if not pat.anchored and not self._decomposable(pat):
+            return bool(G.globmatch(path, pat.text(self.minus), flags=self.gl_mb))
+        # a leading '/' anchors the alternative to the root: the slash is stripped and MATCHBASE does not apply to it
+        plain = self.gl & ~(G.NEGATE | G.NEGATEALL)
+        return self._list(pat, lambda body, anc: bool(G.globmatch(
+            path, body, flags=plain | (G.MATCHBASE if (self.flags & self.WM.MATCHBASE and not anc) else 0))))
+
+    def _name(self, name: str, pat: Pat) -> bool:
+        F = self.F
+        if not self._decomposable(pat):
+            return bool(F.fnmatch(name, pat.text(self.minus), flags=self.fn))
+        return self._list(pat, lambda body, anc: bool(F.fnmatch(name, ('/' if anc else '') + body, flags=self.fn & ~(F.NEGATE | F.NEGATEALL))))
+
     def file(self, pat: Pat, pathname: bool, rel: list[str], name: str) -> bool:
         """does the file pattern select this file (pattern not empty)"""
         if pathname:
             return self._path('/'.join(rel + [name]), pat)
-        return bool(self.F.fnmatch(name, pat.text(self.minus), flags=self.fn))
+        return self._name(name, pat)
 
     def excl(self, pat: Pat, pathname: bool, rel: list[str], name: str) -> bool:
         """does the exclude pattern accept this directory (pattern not empty)"""
         if pathname:
             return self._path('/'.join(rel + [name]) + '/', pat)
-        return bool(self.F.fnmatch(name, pat.text(self.minus), flags=self.fn))
+        return self._name(name, pat)
 
 
 def key_of(pathname: bool, rel: list[str], name: str) -> str:
@@ -364,6 +381,8 @@ def rec_class():
     class Rec(WM.WcMatch):
         def on_init(self, k7=None):
             self.k7 = k7
+            if getattr(k7, 'kill_in_init', False):
+                self.kill()         # "before it starts", from the one hook that runs outside a run
 
         def _rel(self, base, name):
             return os.path.join(base, name)[len(self.k7.root):]
